@@ -140,6 +140,26 @@ def IsPartialAngle (o : Obs ℝ) (r : Role) (c : Coord) (v : ℝ) : Prop :=
     (∀ t, IsPolarAngle (dX2 (bumpU o r c t)) (dY2 (bumpU o r c t)) (θ₂ t)) ∧
     HasDerivAt (fun t => R2CC * (θ₂ t - θ₁ t)) v 0
 
+/-! ### several roles naming one and the same point (angle with bs = fs, from = to) -/
+
+/-- move coordinate `c` of all the roles in `S` together -/
+def bumpSet (o : Obs ℝ) (S : List Role) (c : Coord) (h : ℝ) : Obs ℝ := S.foldl (fun o r => bump o r c h) o
+noncomputable def bumpSetU (o : Obs ℝ) (S : List Role) (c : Coord) (t : ℝ) : Obs ℝ := bumpSet o S c (t / unitOf c)
+
+/-- what the design matrix holds for the unknown after the pushes of all roles in `S` are added
+    into its one column (`Envelope::set` sums repeated column indices) -/
+def coeffSum (l : List (Role × Coord × ℝ)) (S : List Role) (c : Coord) : ℝ :=
+  ((l.filter (fun p => decide (p.1 ∈ S) && decide (p.2.1 = c))).map (fun p => p.2.2)).sum
+
+def IsPartialSet (unit : ℝ) (F : Obs ℝ → ℝ) (o : Obs ℝ) (S : List Role) (c : Coord) (v : ℝ) : Prop :=
+  HasDerivAt (fun t => unit * F (bumpSetU o S c t)) v 0
+
+def IsPartialAngleSet (o : Obs ℝ) (S : List Role) (c : Coord) (v : ℝ) : Prop :=
+  ∃ θ₁ θ₂ : ℝ → ℝ, θ₁ 0 = brg (dX o) (dY o) ∧ θ₂ 0 = brg (dX2 o) (dY2 o) ∧
+    (∀ t, IsPolarAngle (dX (bumpSetU o S c t)) (dY (bumpSetU o S c t)) (θ₁ t)) ∧
+    (∀ t, IsPolarAngle (dX2 (bumpSetU o S c t)) (dY2 (bumpSetU o S c t)) (θ₂ t)) ∧
+    HasDerivAt (fun t => R2CC * (θ₂ t - θ₁ t)) v 0
+
 /-- is the unknown `(r, c)` adjusted (free or constrained)?  The orientation always is. -/
 def freeAt (o : Obs ℝ) : Role × Coord → Bool
   | (.station, .ori) => true
